@@ -131,11 +131,12 @@ CLAIMED['C16'] = dict(
          'application re-enters only execute. close() and the reconnecting factory policy are out of scope.')
 
 SERVER_NOTE = ('Modelled not verified: socketserver / asyncio / the Twisted reactor are replaced by "chunks are handed to the handler in '
-               'order" (in-process fakes drive the real handler and protocol classes); requests outside the data-access execute methods '
-               '(diagnostics, identification, file records, FIFO) are executed by the real code and their reply bytes are not compared '
-               'with the model. ')
+               'order" (in-process fakes drive the real handler and protocol classes). The model covers the execute methods of every '
+               'request class and the process-wide control block (message counters, listen-only flag, identity), so bytes written, '
+               'connection liveness, tables and control state are compared exactly. ')
 CLAIMED['C09'] = dict(
-    text='Kernel-checked on Model/Server.lean: response_matches_request (the answer carries the request function code or code|0x80), '
+    text='Kernel-checked on Model/Server.lean: response_matches_request (every request class: the answer carries the request function code or '
+         'code|0x80), frames_eq_answered (exactly one frame per answered delivery when nothing undecodable arrived), '
          'silent_cases (broadcast / ignored missing unit: nothing is sent), frames_le_answered + no_spontaneous_output (at most one frame '
          'per answered delivery, none without a delivery), frames_carry_request_ids (every frame written is the framing of a response '
          'with the request unit and transaction id), over every event list by induction. Request histories with random ids, pipelined, '
@@ -145,7 +146,7 @@ CLAIMED['C09'] = dict(
 CLAIMED['C10'] = dict(
     text='Kernel-checked: addressed_unit_only (a non-broadcast request leaves every other unit untouched), unhosted_unit (nothing changes; '
          'no answer or gateway exception), addressed_unit_executed, broadcast_once (applied exactly once to every hosted unit), '
-         'broadcast_no_response, broadcast_unit_accepted, unit0_ordinary_without_broadcast, single_mode_any_unit. All seven real front-ends '
+         'broadcast_no_response, broadcast_unit_accepted, other_requests_leave_tables, unit0_ordinary_without_broadcast, single_mode_any_unit. All seven real front-ends '
          'are run each run on hosted sets incl. 0/255 with per-unit dumps after every request; final tables are checked against the '
          'per-unit projection of the history executed by the register-file spec.',
     design='6/C10', technique='Lean 4 proof over the server front-end model (unit routing) + differential correspondence + projection oracle',
@@ -159,12 +160,14 @@ CLAIMED['C12'] = dict(
     design='6/C12', technique='Lean 4 proof over the server front-end model (totality, store frame rule) + differential correspondence on hostile input',
     note=SERVER_NOTE + 'That no Python exception other than those the model lists can be raised is established by correspondence, not by proof.')
 CLAIMED['C17'] = dict(
-    text='Kernel-checked: callback_common / handle_common (the three copies of execute/send agree), stream_frontends_agree, '
-         'stream_frontends_agree_history, stream_frontends_agree_schedule (every interleaving of several connections), '
-         'all_frontends_agree_on_decodable (all seven, as long as nothing undecodable arrives), framing_independent_of_store, mode_invariant. '
-         'Each run gives the same datastore and request bytes to every real front-end and compares them with each other byte for byte, '
-         'and interleaves 1..3 connections against the serial run of the frames in completion order.',
-    design='6/C17', technique='Lean 4 proof of front-end equivalence on the server model + cross-implementation differential run',
+    text='Kernel-checked: same_kind_agree (+ _history, _schedule: front-ends of the same kind — e.g. sync TCP and asyncio TCP — are equal as '
+         'functions of the byte stream: every byte string, every request class, every interleaving of several connections), and across '
+         'kinds (the Twisted protocols alone count sent messages and honour listen-only mode) the simulation all_frontends_agree / '
+         'stream_frontends_agree(_history): for data-access and identification requests every pair of front-ends writes byte-identical '
+         'responses and leaves the same datastore, the worlds differing at most in the counters; framing_independent_of_store, '
+         'mode_invariant. Each run gives the same datastore and request bytes to every real front-end and compares them with each other '
+         'byte for byte, and interleaves 1..3 connections against the serial run of the frames in completion order.',
+    design='6/C17', technique='Lean 4 proof of front-end equivalence (equality within a kind, simulation across kinds) + cross-implementation differential run',
     note=SERVER_NOTE + 'A schedule is a total order of chunk deliveries; preemption inside one processIncomingPacket call (threaded server) is not modelled.')
 
 CLAIMED['C15'] = dict(
